@@ -179,11 +179,13 @@ def furthest_rule(ctx, p, K):
     loop = [n for n in t.node.body if isinstance(n, ast.For)]
     okt = len(cs) == 1 and len(app) == 1 and len(loop) == 1
     if okt:
-        tgt = [n.targets[0].id for n in t.body_nodes() if isinstance(n, ast.Assign) and isinstance(n.targets[0], ast.Name) and any(x is cs[0] for x in ast.walk(n.value))]
-        okt = len(tgt) == 1 and norm_text(loop[0].iter) == f"enumerate({tgt[0]})" and isinstance(loop[0].target, ast.Tuple)
+        # however the loop is spelled (enumerate, range(len()), ...): element k of the slim-for-sub table selects the list, and k itself is appended (wire.loop_canon)
+        okt = isinstance(app[0].func.value, ast.Subscript) and len(app[0].args) == 1
         if okt:
-            si, sv = norm_text(loop[0].target.elts[0]), norm_text(loop[0].target.elts[1])
-            okt = isinstance(app[0].func.value, ast.Subscript) and norm_text(app[0].func.value.slice) == sv and norm_text(app[0].args[0]) == si
+            sel = wire.loop_canon(t, loop[0], app[0].func.value.slice)
+            val = wire.loop_canon(t, loop[0], app[0].args[0])
+            table = norm_text(wire.inline_locals(t, cs[0]), limit=2000).replace(" ", "").replace('"', "'")
+            okt = val == "__k__" and sel in (f"{table}[__k__]", f"{table}.astype('int')[__k__]", f"int({table}[__k__])", f"{table}.astype(dtype='int')[__k__]")
     ctx.ob(rule, t.key, okt, where=t, node=t.node, construct=norm_text(app[0]) if app else "", message="sub slim index j must be appended to the list of the slim pixel it belongs to (slim_for_sub_slim[j])")
 
 
